@@ -199,11 +199,34 @@ def check(ctx):
             ctx.check(bool(sv), opt, floop, f"{sv[0] if sv else '?'}[{ivar}] <- second output (reported SD)", "the vector of reported SDs is not filled with the SD of the same call", construct=f"final sd vector {vecs}")
             if yv:
                 yname = yv[0]
+                import copy as _copy
+
+                def _aliases(base):
+                    # plain copies of the filled vector made after the loop (``yval_vec = samples``)
+                    al = {base}
+                    grew = True
+                    while grew:
+                        grew = False
+                        for t_, v_, s_, k_ in iter_stores(opt.node):
+                            if isinstance(t_, ast.Name) and isinstance(v_, ast.Name) and v_.id in al and t_.id not in al and pos(s_) > pos(floop) and k_ == "assign":
+                                al.add(t_.id)
+                                grew = True
+                    return al
+
+                yal = _aliases(yname)
+
+                class _ToBase(ast.NodeTransformer):
+                    def visit_Name(self, node):
+                        if node.id in yal and node.id != yname:
+                            return ast.copy_location(ast.Name(id=yname, ctx=node.ctx), node)
+                        return node
+
                 # stored under yval_vec
-                oks = any(state_key(t) == ("OS", "yval_vec") and yname in {n.id for n in ast.walk(v) if isinstance(n, ast.Name)} for t, v, s, k in iter_stores(opt.node))
+                oks = any(state_key(t) == ("OS", "yval_vec") and yal & {n.id for n in ast.walk(v) if isinstance(n, ast.Name)} for t, v, s, k in iter_stores(opt.node))
                 ctx.check(oks, opt, floop, "optim_state['yval_vec'] <- the sampled vector", "optim_state['yval_vec'] is not the vector of final samples", construct="yval_vec source")
                 if sv:
-                    oks2 = any(state_key(t) == ("OS", "ysd_vec") and sv[0] in {n.id for n in ast.walk(v) if isinstance(n, ast.Name)} for t, v, s, k in iter_stores(opt.node))
+                    sal = _aliases(sv[0])
+                    oks2 = any(state_key(t) == ("OS", "ysd_vec") and sal & {n.id for n in ast.walk(v) if isinstance(n, ast.Name)} for t, v, s, k in iter_stores(opt.node))
                     ctx.check(oks2, opt, floop, "optim_state['ysd_vec'] <- the SD vector", "optim_state['ysd_vec'] is not the vector of reported SDs", construct="ysd_vec source")
                 # estimator
                 try:
@@ -212,8 +235,8 @@ def check(ctx):
                     ests = {}
                     for t, v, s, k in iter_stores(opt.node):
                         a = self_attr_of(t)
-                        if a in ("fval", "fsd") and isinstance(t, ast.Attribute) and pos(s) > pos(floop) and yname in {n.id for n in ast.walk(v) if isinstance(n, ast.Name)}:
-                            ests[a] = (tr.tr(v), s)
+                        if a in ("fval", "fsd") and isinstance(t, ast.Attribute) and pos(s) > pos(floop) and yal & {n.id for n in ast.walk(v) if isinstance(n, ast.Name)}:
+                            ests[a] = (tr.tr(_ToBase().visit(_copy.deepcopy(v))), s)
                     mean, std, size = sp.Function("mean"), sp.Function("std"), sp.Function("size")
                     if "fval" in ests:
                         ctx.check(is_zero(ests["fval"][0] - mean(V)), opt, ests["fval"][1], "fval = mean(yval_vec)", "the reported fval is not the mean of the final samples", construct="fval estimator")
@@ -233,7 +256,12 @@ def check(ctx):
                     if isinstance(t, ast.Name) and t.id == yname and call_name(v) in ("np.vstack", "np.append", "np.concatenate") and pos(s) > pos(floop):
                         g = guard_canon(prog, opt, s)
                         okg = f"(1 == {yname}.size)" in g
-                        src = [canon(e) for e in (v.args[0].elts if isinstance(v.args[0], (ast.Tuple, ast.List)) else v.args)]
+                        def _unwrap(e):
+                            while isinstance(e, ast.Call) and call_name(e) in ("np.atleast_2d", "np.atleast_1d", "np.asarray", "np.array") and e.args:
+                                e = e.args[0]
+                            return e
+
+                        src = [canon(_unwrap(e)) for e in (v.args[0].elts if isinstance(v.args[0], (ast.Tuple, ast.List)) else v.args)]
                         ctx.check(okg and "self.yval" in src, opt, s, "earlier observation appended only when a single final sample was taken", "the earlier observation is mixed into the final samples other than under size == 1", construct=f"supplement under {g[-1:]} with {src}")
 
     # ------------------------------------------------------------------ R3
